@@ -47,6 +47,7 @@ func C16(r *core.Run) {
 	namingConventions(r)
 	requestSplit(r)
 	httpVerbs(r)
+	verbBodyAgreement(r)
 	pathParamNames(r)
 	refClosure(r)
 	// a method without a response block returns a raw body (google.api.HttpBody): its response schema is nil
